@@ -10,6 +10,8 @@ import (
 	"io"
 	"net/http"
 	"net/url"
+	"slices"
+	"sort"
 	"strings"
 	"sync"
 
@@ -295,6 +297,7 @@ type FakeHQ struct {
 	Project    string
 	Seen       map[string]bool
 	EmptyAs204 bool
+	Order      int // order of the URLs in an answer: 0 as asked, 1 reversed, 2 sorted by text (the API promises no order)
 	FailStatus int // != 0: every request is answered with this status and no body
 	Log        []Exchange
 }
@@ -344,6 +347,12 @@ func (f *FakeHQ) RoundTrip(req *http.Request) (*http.Response, error) {
 	}
 	for _, e := range asked {
 		f.Seen[IdentityOf(e.Value)] = true
+	}
+	switch f.Order {
+	case 1:
+		slices.Reverse(out)
+	case 2:
+		sort.SliceStable(out, func(i, j int) bool { return out[i].Value < out[j].Value })
 	}
 	if len(out) == 0 && f.EmptyAs204 {
 		ex.Status = 204
